@@ -194,3 +194,30 @@ Proof.
   - cbn. unfold upd. cbn. reflexivity.
 Qed.
 Print Assumptions C01_list_system_example.
+
+Definition C01_au (o : op) : nat := match o_cuid (op_id o) with (97%N :: _) => 0%nat | _ => 1%nat end.
+Definition C01_oa := OIns (mkOpid 0 1 [97]%N 1) oldest_ts [VStr [1]%N; VStr [2]%N].
+Definition C01_ob := OIns (mkOpid 0 1 [98]%N 1) oldest_ts [VStr [3]%N].
+
+(* non-vacuity with concurrency: two replicas generate head inserts concurrently and the first pushes *)
+Example C01_list_system_concurrent :
+  exists s, reachable lstate op tkey loid C01_au l_exec_remote l_ready l_init s /\
+    applied _ (reps _ s 0%nat) = [C01_oa] /\ applied _ (reps _ s 1%nat) = [C01_ob] /\ log _ s = [C01_oa].
+Proof.
+  eexists. split; [|split; [|split]].
+  - eapply RS. eapply RS. eapply RS. apply R0.
+    + apply (Gen lstate op tkey loid C01_au l_exec_remote l_ready l_init (init_sys op) 0%nat C01_oa).
+      * reflexivity.
+      * intros o' H. exfalso. unfold all_ops in H. cbn in H. destruct H as [H|[r [H|H]]]; exact H.
+      * cbn. split; [vm_compute; split; reflexivity|]. split; [tauto|left; reflexivity].
+    + eapply (Gen lstate op tkey loid C01_au l_exec_remote l_ready l_init _ 1%nat C01_ob).
+      * reflexivity.
+      * intros o' H. unfold all_ops in H. cbn in H. destruct H as [[]|[r H]]. unfold upd in H.
+        destruct (Nat.eq_dec r 0); cbn in H; [|tauto]. assert (C01_oa = o') by tauto. subst o'. vm_compute. discriminate.
+      * cbn. split; [vm_compute; split; reflexivity|]. split; [tauto|left; reflexivity].
+    + eapply (Push lstate op tkey loid C01_au l_exec_remote l_ready l_init _ 0%nat).
+  - reflexivity.
+  - reflexivity.
+  - reflexivity.
+Qed.
+Print Assumptions C01_list_system_concurrent.
